@@ -367,6 +367,7 @@ impl World {
                 origin,
                 version,
                 cuts,
+                live,
             } => {
                 let Some((changes, last_seq, ts)) = self
                     .origin_log
@@ -376,6 +377,21 @@ impl World {
                 else {
                     return Ok(Ok(()));
                 };
+                // rows of this version still live at the origin (None: dense copy)
+                let live_seqs: Option<std::collections::BTreeSet<u64>> = if *live && self.live(*origin) {
+                    let conn = self.read_conn(*origin).await?;
+                    let l: std::collections::BTreeSet<u64> = crate::model::read_version_changes(&conn, self.actors[*origin], *version)?
+                        .iter()
+                        .map(|c| c.seq.0)
+                        .collect();
+                    if l.is_empty() {
+                        // wholly overwritten: a holder serves that as an Empty, not as chunks
+                        return Ok(Ok(()));
+                    }
+                    Some(l)
+                } else {
+                    None
+                };
                 for (a, b) in cuts {
                     if a > b || *b > last_seq {
                         continue;
@@ -383,11 +399,15 @@ impl World {
                     let part: Vec<Change> = changes
                         .iter()
                         .filter(|c| c.seq.0 >= *a && c.seq.0 <= *b)
+                        .filter(|c| live_seqs.as_ref().map_or(true, |l| l.contains(&c.seq.0)))
                         .cloned()
                         .collect();
-                    if part.is_empty() {
+                    if part.is_empty() && (live_seqs.is_none() || (*a == 0 && *b == last_seq)) {
                         // the real chunker never emits an empty chunk for a dense version
                         continue;
+                    }
+                    if part.is_empty() {
+                        self.stats.fault("recut-empty-chunk");
                     }
                     let change = ChangeV1 {
                         actor_id: self.actors[*origin],
